@@ -125,7 +125,7 @@ def check_element(ub, hkl, wl, pos, va, hc):
 def oracle(ctx, widen=1):
     from diffcalc.hkl.calc import HklCalculation
     from diffcalc.hkl.constraints import Constraints
-    reqs = requests(ctx, ctx.scale(3, 200) * widen, ctx.scale(1, 50)) + PL.degenerate_requests(ctx.rng, ctx.scale(60, 3000) * widen)
+    reqs = requests(ctx, ctx.scale(3, 200) * widen, ctx.scale(1, 50)) + PL.degenerate_requests(ctx.rng, ctx.scale(60, 3000) * widen) + PL.diagonal_axis_requests(ctx.rng, ctx.scale(2000, 40000) * widen)
     ok_modes = set()
     elements = 0
     for ub, vals, hkl, wl, tag in reqs:
